@@ -39,6 +39,7 @@ PROPS = {
     "C18": {"modules": ["c18_reports"], "level": "other", "bounded": []},
     "C19": {"modules": ["c19_cli"], "level": "other", "bounded": []},
     "C20": {"modules": ["c19_cli"], "level": "other", "bounded": []},
+    "C08": {"modules": ["c04_schedule"], "level": "other", "bounded": []},
     "C10": {
         "modules": ["c10_containers", "c01_ledger"],
         "level": "other",
